@@ -73,12 +73,15 @@ def decode(b, follow="header"):
     terminated = None
     nrec = 0
     while True:
-        if pos + 2 > n:
+        if pos + 1 > n:
             problems.append(("params/chain", "record chain runs past the end of file"))
             break
         nlen = _i8(b, pos)
         if nlen == 0:
-            terminated = "terminator"
+            terminated = "terminator"          # (a terminator may be the very last byte of the file)
+            break
+        if pos + 2 > n:
+            problems.append(("params/chain", "record chain runs past the end of file"))
             break
         gid = _i8(b, pos + 1)
         nl = abs(nlen)
